@@ -45,8 +45,8 @@ pub enum Place {
 	Typed(ValueType),          // looking through pointers/views: the fully dereferenced type reached so far
 	Unknown,                   // not enough is known yet (None)
 	Silent(Poison),            // Some(Err(p)): an earlier error, nothing new to report
-	Broken(Poison),            // the base of the reference is replaced by this poison, Some(Err(Poisoned)) is answered
-	Rejected(Error),           // Some(Err(Error(e))): a new error (E501 not an array)
+	Broken(Poison),            // a step cannot be taken (E501 not an array, E505 not a structure, E406 no such member): the base of the
+	                           // reference is replaced by this poison - the reference carries the error - and the silent poison is answered
 }
 pub open spec fn structure_of(x: ValueType) -> Option<Identifier> {
 	match x { ValueType::Struct { identifier } => Some(identifier), ValueType::Word { identifier, .. } => Some(identifier), _ => None }
@@ -56,7 +56,7 @@ pub open spec fn place_step(x: ValueType, s: ReferenceStep, r: Reference, declar
 	match s {
 		ReferenceStep::Element { .. } =>
 			if value_type::has_elem(x) { Place::Typed(value_type::strip(value_type::elem(x))) }
-			else { Place::Rejected(Error::NotAnArray { current_type: x, location: r.location, previous: declared_at }) },
+			else { Place::Broken(Poison::Error(Error::NotAnArray { current_type: x, location: r.location, previous: declared_at })) },
 		ReferenceStep::Member { member, .. } =>
 			if structure_of(x) is Some {
 				let sid = structure_of(x)->Some_0;
@@ -110,7 +110,6 @@ pub open spec fn type_of_place(r: Reference, tab: SymTab, structs: Structs) -> O
 			Place::Unknown => None,
 			Place::Silent(p) => Some(Err(p)),
 			Place::Broken(_) => Some(Err(Poison::Poisoned)),
-			Place::Rejected(e) => Some(Err(Poison::Error(e))),
 		}
 	}
 }
